@@ -70,6 +70,8 @@ _corpus = []
 def corpus():
     if not _corpus:
         for e in catalogue.entries('quick'):
+            if e.get('only'):
+                continue
             _corpus.append((e['id'], mibspec.render(e['mods']), mibspec.file_tree(e['mods']), e['v1']))
         for b in breakages():
             _corpus.append(('breakage-%s-%d' % (b['opt'], b['n']), b['text'], None, False))
